@@ -11,6 +11,7 @@ What it does
     - ``sys.monitoring`` ``INSTRUCTION`` events (fired *before* a bytecode executes) in the code objects
       registered with ``instrument()`` — either every bytecode of a code object or a chosen subset of
       offsets (``shared_attr_offsets``: the attribute accesses on ``self``);
+    - ``sched.point(label)`` called by harness code running inside a managed thread (fake transport);
     - an attempt to take a ``SchedLock`` that is held (the thread becomes *disabled*, it does not spin);
     - the end of a thread.
 
@@ -41,12 +42,17 @@ import dis
 import sys
 import threading as _thr
 
-__all__ = ["ModuleState", "Scheduler", "Execution", "SchedLock", "ThreadingShim", "SHIM", "instrument", "uninstrument",
+__all__ = ["ModuleState", "point", "UncontrolledBlock", "Scheduler", "Execution", "SchedLock", "ThreadingShim", "SHIM", "instrument", "uninstrument",
            "shared_attr_offsets", "explore", "count_preemptions", "HarnessError"]
 
 
 class HarnessError(Exception):
     """The harness lost control (never a property violation)."""
+
+
+class UncontrolledBlock(Exception):
+    """A thread outside the scheduler (the harness' sequential phase) would wait forever for a SchedLock
+    that nobody is going to release — a deadlock of the code under test, reported by the check."""
 
 
 class _Abort(BaseException):
@@ -116,6 +122,18 @@ def _on_instruction(code, offset):
         return None
     s._point(i, code, offset)
     return None
+
+
+def point(label):
+    """Explicit scheduling point for harness code that runs inside a managed thread (e.g. a fake
+    transport): the calling thread may lose the baton here, exactly like before a bytecode."""
+    s = _ACTIVE
+    if s is None:
+        return
+    i = s._ident2idx.get(_thr.get_ident())
+    if i is None or s.aborting:
+        return
+    s._explicit_point(i, str(label))
 
 
 def instrument(code_points):
@@ -212,7 +230,7 @@ class SchedLock:
                 return True
             if not blocking:
                 return False
-            raise HarnessError("uncontrolled thread would block on a SchedLock (self-deadlock)")
+            raise UncontrolledBlock("a sequential request would wait forever for a lock that was left held")
         if s.aborting:
             return True
         s.lock_ops += 1
@@ -403,6 +421,14 @@ class Scheduler:
             self._fail(f"thread T{i} runs while the baton is with T{self.current}", i)
         self.points[i] += 1
         nxt = self._decide(i, True, (code.co_name, offset, _ins_text(code, offset)))
+        if nxt != i:
+            self._switch(i, nxt)
+
+    def _explicit_point(self, i, label):
+        if self.current != i:
+            self._fail(f"thread T{i} runs while the baton is with T{self.current}", i)
+        self.points[i] += 1
+        nxt = self._decide(i, True, (label, 0, "explicit point"))
         if nxt != i:
             self._switch(i, nxt)
 
